@@ -277,6 +277,7 @@ func genStep(rt *rapid.T, p *Profile, cfg *Config, i int) Step { //nolint:cyclop
 		if cfg.isStream(st.C) {
 			st.Split = rapid.SampledFrom([]int{0, 0, 1, 4, 20, 32, 36}).Draw(rt, "split")
 		}
+		st.RespLost = rapid.IntRange(0, 11).Draw(rt, "relayWriteFails") == 0 // (Send + RespLost: the relay socket's write fails)
 	case "ChannelData":
 		st.Ch = rapid.OneOf(rapid.IntRange(0, 2), rapid.IntRange(0, len(ChannelSlots)-1)).Draw(rt, "ch")
 		st.N = genLen(rt, p, "n")
